@@ -627,6 +627,19 @@ def run_case(case, R, jobs, tagno):
         new_bad = {k: v for k, v in after_bad.items()
                    if before_bad.get(k) != v}
         if new_bad:
+            # is the search itself wrong for this array order (C01: e.g. the
+            # order-dependent hmax lookup of ExtendedZOrderNNPS), or did
+            # reorder_particles leave the structure stale?  A structure built
+            # from scratch on the re-ordered arrays decides.
+            nn2 = getattr(NN, cls)(dim=case['dim'], particles=pas,
+                                   radius_scale=rs, **dict(case['opts']))
+            fresh_bad = nbr_check(nn2, pas, rs, queries)
+            nb2 = {k: v for k, v in new_bad.items() if fresh_bad.get(k) != v}
+            if not nb2:
+                R.count('nbr-inexact-also-with-fresh-structure(C01):' + cls)
+                after_bad = dict(after_bad)
+            new_bad = nb2
+        if new_bad:
             (si, di, o), (miss, extra, dup) = sorted(new_bad.items())[0]
             pf('C17:%s:neighbours-inexact-after-reorder' % cls,
                'round %d: neighbours of every particle equal brute force '
@@ -737,7 +750,7 @@ def main():
     if missing:
         R.note('modelled classes not found in pysph.base.nnps: %s' % missing)
     rng = random.Random(a.seed * 7919 + 17)
-    per = 100 if a.tier == 'quick' else 1500
+    per = 250 if a.tier == 'quick' else 2500
     check_cases([c for c in corpus() if c['cls'] in classes], R, 100000)
     R.count('corpus', len(corpus()))
     cases = []
